@@ -330,7 +330,50 @@ def op_check_results(ctx, runname, compl, **kw):
     simplifier.check_results(d, compl, **kw)
 
 
-OPS = dict(gen=op_gen, npseed=op_npseed, like=op_like, fit=op_fit, load_subs=op_load_subs,
+API_BASIS = [["x", "a"], ["inv"], ["+", "*", "-", "/", "pow"]]
+
+
+def op_api(ctx, what, like=None, fun=None):
+    """Earlier calls of ESR's other public entry points in the same process (the single-function API of
+    esr.fitting.fit_single and the string/tree helpers of esr.generation.generator, used as examples/fit_from_string.py and
+    tests/test_esr.py use them).  Every rank makes the same calls (none of them communicates)."""
+    import sympy
+    import esr.generation.generator as generator
+    if what == 'string_to_node':
+        # verbatim from examples/fit_from_string.py: the caller's own symbol table (x and the parameters merely real)
+        maxvar = 20
+        x = sympy.symbols('x', real=True)
+        a = sympy.symbols([f'a{i}' for i in range(maxvar)], real=True)
+        locs = {**{'x': x}, **{f'a{i}': a[i] for i in range(maxvar)}}
+        for f in (fun or ['1.1 * x ** 4 + 2 * x ** 3 + 4 * x ** 2 + 3 * x + 5', 'a0 + a1 * x**3', 'a0 / (x + a1)']):
+            expr, nodes, comp = generator.string_to_node(f, API_BASIS, locs=locs, evalf=True)
+            nodes.to_list(API_BASIS)
+    elif what == 'string_to_node_default':
+        for f in (fun or ['a0 + a1 * x**3', 'x**2 + 3*x', '1']):
+            expr, nodes, comp = generator.string_to_node(f, API_BASIS, evalf=True)
+            nodes.to_list(API_BASIS)
+            nodes.count_nodes(API_BASIS)
+            nodes.is_unity()
+    elif what == 'aifeyn':
+        from esr.fitting.fit_single import tree_to_aifeyn, string_to_aifeyn
+        tree_to_aifeyn(["+", "a0", "*", "a1", "pow", "x", "3"], API_BASIS, verbose=False)
+        string_to_aifeyn("a0 + a1 * x**3", API_BASIS, verbose=False)
+        string_to_aifeyn("2.5 * x + 1.5", API_BASIS, verbose=False, replace_floats=True)
+    elif what == 'single_function':
+        from esr.fitting.fit_single import single_function
+        single_function(["+", "a0", "*", "a1", "pow", "x", "3"], API_BASIS, _like(ctx, like), verbose=False, Niter=3, Nconv=1)
+    elif what == 'fit_from_string':
+        from esr.fitting.fit_single import fit_from_string
+        fit_from_string(fun or "a0 + a1 * x**3", API_BASIS, _like(ctx, like), Niter=3, Nconv=1)
+    elif what == 'run_sympify':
+        lk = _like(ctx, like)
+        for f in ('a0*x + a1', 'pow(x,a0)', 'sqrt(x) + log(x)*a0', 'inv(x) + square(a0) - cube(x)'):
+            lk.run_sympify(f, tmax=5, try_integration=False)
+    else:
+        raise ValueError(what)
+
+
+OPS = dict(api=op_api, gen=op_gen, npseed=op_npseed, like=op_like, fit=op_fit, load_subs=op_load_subs,
            slices=op_slices, simp_inv=op_simp_inv, subs_templates=op_subs_templates, snapshot=op_snapshot, victim=op_victim, rewrite_prior=op_rewrite_prior, rewrite_data=op_rewrite_data, weak_fisher=op_weak_fisher, barrier=op_barrier, check_results=op_check_results)
 
 
